@@ -135,7 +135,7 @@ class C19(Prop):
         write_if_changed(GEN_PROGS, ptxt)
         write_if_changed(GEN_OBL, otxt)
         ctx.log(f"translator: {len(self._progs)} programs, {len(self._untranslatable)} refused, "
-                f"{sum(1 for v in self._verdicts.values() if v['bad_plans'])} with a computed counter-example")
+                f"{sum(1 for v in self._verdicts.values() if v.get('bad_plans'))} with a computed counter-example")
         if self._untranslatable or self._import_fails:
             raise TranslatorRefusal("source not understood for: " +
                                     "; ".join(f"{n}: {w}" for n, w in self._untranslatable) +
@@ -596,6 +596,30 @@ class C19(Prop):
                 break
         return bad
 
+    # -- real transports over fake OS / library endpoints -----------------------------------------------------------
+    def _endpoint_histories(self, cr: _ClassRun, ctx: Ctx, res: Result, kinds=None) -> list:
+        """never-opened → every RPC method, and open → close → every RPC method, with the REAL transport classes
+        (tcp, udp, serial, usbtmc, vxi11) over fake endpoints: no endpoint operation, no link, is_open() False."""
+        from harness import c19_endpoints as E
+        D = cr.D
+        methods = D.rpc_methods(cr.cls)
+        fails = []
+        seen = set()
+        for kind in (kinds or list(E.KINDS)):
+            viol = E.closed_histories(cr.cls, cr.variant, kind, cr.builder, methods, res.count)
+            res.note_case((cr.name, "endpoint", kind, len(viol)), nontrivial=True)
+            for history, method, who, detail in viol:
+                sig = f"{who} reaches the device on a closed transport ({history})"
+                if sig in seen:
+                    continue
+                seen.add(sig)
+                fails.append(Failure(sig, f"{cr.name} over a real {kind} transport, history {history} → {method}(): {who} "
+                                          f"touched the endpoint although the instrument is closed: {detail}",
+                                     {"kind": "endpoint", "class": cr.cls.__name__, "module": cr.cls.__module__,
+                                      "variant": cr.variant, "transport": kind, "history": history, "method": method,
+                                      "signature": sig}))
+        return fails
+
     # -- drivers that are not transport-based: the flag protocol of QMI_Instrument alone ---------------------------
     def _base_histories(self, ctx: Ctx, res: Result, lines, impl, meta, with_model: bool):
         """QMI_Instrument itself and every shipped driver that inherits open()/close() unchanged and can be constructed
@@ -731,6 +755,11 @@ class C19(Prop):
                                              f"the model refutes consistency after close() under plan {v['close_bad_plans'][0]} "
                                              f"(theorem closebad_{cr.name}) but no injected fault reproduces it on the real class",
                                              case={"class": cr.cls.__name__, "variant": cr.variant}))
+            try:
+                res.failures += self._endpoint_histories(cr, ctx, res)
+            except Exception as e:
+                res.broken.append(Broken("correspondence", f"C19.endpoints.{cr.name}",
+                                         f"{type(e).__name__}: {e}\n{traceback.format_exc()[-1500:]}"))
             # histories
             n_hist = ctx.scale(10, 150)
             # fixed corpus, run first on every seed: the same operation twice, unusual order, one object reused over
@@ -798,6 +827,14 @@ class C19(Prop):
         res.failures = kept
         if dropped:
             res.extra["further_distinct_failures_not_listed"] = dropped
+        # the static transport-guard table and the endpoint histories must agree on the unguarded transport methods
+        tb = (self._verdicts.get("__transports__") or {}).get("bare_io_methods", [])
+        witnessed = {f.signature.split(" reaches the device")[0] for f in res.failures if f.replay.get("kind") == "endpoint"}
+        for m in tb:
+            if only is None and m not in witnessed:
+                res.broken.append(Broken("correspondence", f"C19.transport_guard.{m}",
+                                         f"the static analysis finds no open-state guard before the endpoint access in {m} (theorem "
+                                         f"transport_io_bare) but no history on the real transport classes reaches the device through it"))
         if only is None:
             try:
                 self._base_histories(ctx, res, lines, impl, meta, with_model)
@@ -860,6 +897,12 @@ class C19(Prop):
         if rp.get("kind") in ("closefault", "fault2"):
             fails = (self._sweep_close(cr, ctx, res, [], [], [], False) if rp["kind"] == "closefault"
                      else self._sweep_multi(cr, ctx, res, [], [], [], False, self._one_open(cr, None)[0].sess.n))
+            for f in fails:
+                if f.signature == rp.get("signature"):
+                    return f
+            return fails[0] if fails else None
+        if rp.get("kind") == "endpoint":
+            fails = self._endpoint_histories(cr, ctx, res, kinds=[rp["transport"]])
             for f in fails:
                 if f.signature == rp.get("signature"):
                     return f
